@@ -873,7 +873,9 @@ def run_catalogue(ctx, worker, tier=None, models=None, fixtures=('populated', 'e
     if os.environ.get('VF_MODELS'):      # debugging aid: restrict to some models (the run is then marked non-exhaustive)
         names = [n for n in names if n in os.environ['VF_MODELS'].split(',')]
         ctx.cap('VF_MODELS restricts the catalogue to %s' % names)
-    items = [(n, ctx.tier, ctx.seed, f) for n in names for f in fixtures]
+    no_refs = ('none', 'm2m', 'sym_m2m')         # models without a to-one reference column: the prelude finds no seed
+    items = [(n, ctx.tier, ctx.seed, f) for n in names for f in fixtures
+             if not (f == 'populated-seeds' and n.split('-')[0] in no_refs)]
     items.sort(key=lambda it: (it[3] != 'populated', -len(it[0])))
     results = ctx.pmap(worker, items)
     agg = dict(states=0, transitions=0, executions=0, per_model={})
